@@ -421,9 +421,12 @@ private:
 		static_assert(PrototypeInfo::index >= 0, "Can't find invoker for the given argument types.");
 		static_assert(std::tuple_size<typename PrototypeInfo::ArgsTuple>::value == 1 + sizeof...(Args), "Arguments count mismatch.");
 
+		// The event must be obtained before the arguments are forwarded into the tuple: the evaluation
+		// order of function arguments is unspecified, and `first` may be moved from.
+		const EventType_ event(GetEvent::getEvent(std::forward<T>(first), args...));
 		doEnqueueItem(QueuedItemType(
 			PrototypeInfo::index,
-			GetEvent::getEvent(std::forward<T>(first), args...),
+			event,
 			&HeterEventQueueBase::doDispatchItem<PrototypeInfo>,
 			typename PrototypeInfo::ArgsTuple(std::forward<T>(first), std::forward<Args>(args)...)
 		));
@@ -445,9 +448,12 @@ private:
 		static_assert(PrototypeInfo::index >= 0, "Can't find invoker for the given argument types.");
 		static_assert(std::tuple_size<typename PrototypeInfo::ArgsTuple>::value == sizeof...(Args), "Arguments count mismatch.");
 
+		// The event must be obtained before the arguments are forwarded into the tuple: the evaluation
+		// order of function arguments is unspecified, and a user getEvent policy may read `args`.
+		const EventType_ event(GetEvent::getEvent(std::forward<T>(first), args...));
 		doEnqueueItem(QueuedItemType(
 			PrototypeInfo::index,
-			GetEvent::getEvent(std::forward<T>(first), args...),
+			event,
 			&HeterEventQueueBase::doDispatchItem<PrototypeInfo>,
 			typename PrototypeInfo::ArgsTuple(std::forward<Args>(args)...)
 		));
